@@ -370,6 +370,62 @@ class SparseHandle:
 # --------------------------------------------------------------------------- observing proxy
 
 
+class OpenInterposer:
+    """While installed, binary read-only files that *repository code* opens by path come back wrapped in a ProxyFile: the
+    monitors that work on caller-supplied handles (fault injection, moving the handle between reads, call logs) then also reach
+    descriptor-named extents, parents located through locators and bundle images. Everything else opens as usual."""
+
+    def __init__(self, repo_mark: str = "/dissect/hypervisor/"):
+        self.repo_mark = repo_mark
+        self.wrapped = 0
+        self._orig = None
+
+    def _from_repo(self) -> bool:
+        f = sys._getframe(2)
+        depth = 0
+        while f is not None and depth < 6:
+            fn = f.f_code.co_filename
+            if self.repo_mark in fn:
+                return True
+            if "/pathlib" not in fn and "/verif/vf/core.py" not in fn:
+                return False
+            f = f.f_back
+            depth += 1
+        return False
+
+    def install(self):
+        import builtins
+
+        self._orig = io.open
+        orig = self._orig
+        me = self
+
+        def opener(file, mode="r", *a, **kw):
+            fh = orig(file, mode, *a, **kw)
+            try:
+                if "b" in mode and "r" in mode and "+" not in mode and not isinstance(file, int) and me._from_repo():
+                    p = ProxyFile(fh, name=getattr(fh, "name", str(file)))
+                    p.owned_by_library = True
+                    ALL_PROXIES.remove(p)
+                    me.wrapped += 1
+                    return p
+            except Exception:  # noqa: BLE001
+                pass
+            return fh
+
+        io.open = opener
+        builtins.open = opener
+        return self
+
+    def remove(self):
+        import builtins
+
+        if self._orig is not None:
+            io.open = self._orig
+            builtins.open = self._orig
+            self._orig = None
+
+
 class BudgetExceeded(BaseException):
     """I/O budget of a ProxyFile exceeded (BaseException so the code under test cannot swallow it)."""
 
@@ -521,6 +577,11 @@ class ProxyFile:
         raise io.UnsupportedOperation("fileno")
 
     def close(self) -> None:
+        if getattr(self, "owned_by_library", False):
+            # a file the library opened itself (through the open() interposer): closing it is the library's business
+            self._really_closed = True
+            self._fh.close()
+            return
         self.closed_by_callee = True
         try:
             f = sys._getframe(1)
@@ -530,7 +591,7 @@ class ProxyFile:
 
     @property
     def closed(self) -> bool:
-        return False
+        return getattr(self, "_really_closed", False)
 
     def __enter__(self):
         return self
